@@ -1,6 +1,8 @@
 import Jap.Core.Heap
 import Jap.Lemmas.Heap
 import Jap.Lemmas.HeapOps
+import Jap.Core.HeapHist
+import Jap.Lemmas.HeapHist
 import Jap.Gen.HeapSites
 import Jap.Gen.Brackets
 import Jap.Gen.NsTables
@@ -25,7 +27,7 @@ namespace Jap.Props.C08
 open Jap.Heap
 
 /-- the copy policy of the code as it is now -/
-def pol : Policy := policyOfTable Jap.Gen.HeapSites.kindTable
+def pol : Policy := policyOfTable Jap.Gen.HeapSites.kindTable Jap.Gen.HeapSites.stripMetaCopiesEmpty
 /-- the copy sites of the code as it is now -/
 def cs : Sites := sitesOfTable Jap.Gen.HeapSites.copySites
 def metaKeys : List String := Jap.Gen.metaKeys
@@ -53,9 +55,32 @@ theorem tie_copy_sites :
 
 /-- `parse_args(args, namespace)` copies both; `save` hands its config to dump/clone only. -/
 theorem tie_copy_sites_parse_args :
-    lookupSite "parse_args.namespace" Jap.Gen.HeapSites.copySites = true ∧
-    lookupSite "parse_args.args" Jap.Gen.HeapSites.copySites = true ∧
-    lookupSite "save.cfg" Jap.Gen.HeapSites.copySites = true := by decide
+    cs.parseArgsNs = true ∧ cs.parseArgsArgs = true ∧ cs.saveCfg = true := by decide
+
+/-- all twelve copy sites, as the history theorems need them -/
+theorem sitesOk : SitesOk cs :=
+  ⟨by decide, by decide, by decide, by decide, by decide, by decide, by decide, by decide, by decide, by decide, by decide, by decide⟩
+
+/-- `strip_meta` copies an empty configuration too (fix 3b44d63, probed on the live code) -/
+theorem tie_strip_meta_empty : pol.stripEmpty = true := by decide
+
+/-- the live probes of every public entry point that takes a caller-owned object (Gen/HeapSites.entryProbes, one real
+    call each, in a child process): the argument is as it was — value, types and identities of every nested container —
+    and no list/dict/Namespace of it is part of the result.  An entry point that cannot be probed is a broken tie. -/
+theorem tie_entry_probes :
+    ["dump.cfg", "validate.cfg", "validate.branch", "merge_config.cfg_from", "merge_config.cfg_to", "strip_unknown.cfg",
+     "instantiate_classes.cfg", "instantiate_classes.empty", "strip_meta.empty", "parse_object.cfg_obj.dict",
+     "parse_object.cfg_obj.namespace", "parse_object.cfg_base", "parse_args.namespace", "parse_args.namespace.nodefaults",
+     "parse_object.cfg_base.nodefaults", "parse_args.args", "parse_env.env",
+     "save.cfg.single", "save.cfg.multi", "get_defaults.default", "auto_cli.args"].all
+      (fun site => Jap.Gen.HeapSites.entryProbes.lookup site == some "unchanged") = true := by decide
+
+/-- `set_defaults` and `add_argument(default=…)` KEEP the caller's object as the declared default (argparse semantics,
+    `self._defaults[dest] = action.default = default`): the model's `setDefault` stores the value itself.  That nothing
+    ever writes it is `C08_history_*`; that the caller's own later mutation is seen by the parser is `setDefault_aliases`. -/
+theorem tie_defaults_kept :
+    Jap.Gen.HeapSites.entryProbes.lookup "set_defaults.value" = some "kept" ∧
+    Jap.Gen.HeapSites.entryProbes.lookup "add_argument.default" = some "kept" := by decide
 
 /-- `C08_fresh` counts one object per spec *of the configuration*; that this covers the specs derived from
     signature defaults (lazy_instance) rests on `add_sub_defaults` writing them into `init_args` wherever a class
@@ -297,10 +322,14 @@ theorem C08_frame_parse_object_partial (ds : Kids) (base : Option T) (obj : T) (
     | some b => exact sharedMut_nil b (hbase b rfl)
   simp only [poShared, sharedMutK_nil ds hds, hb, sharedMut_nil obj hobj, List.append_nil, List.not_mem_nil] at this
 
-/-- instantiate_classes works on `strip_meta(cfg)` -/
+theorem stripShared_eq (t : T) : stripShared pol t = sharedMut pol t := by
+  simp [stripShared, tie_strip_meta_empty]
+
+/-- instantiate_classes works on `strip_meta(cfg)` — for EVERY configuration, the empty one included (fix F29) -/
 theorem C08_frame_instantiate_exact (t : T) (k : Nat) (hk : ∀ j ∈ ids t, j < k) :
     ∀ i ∈ (instantiate pol cs metaKeys t k).writes, i ∈ ids t → i ∈ sharedMut pol t :=
-  instantiate_spec pol cs metaKeys (fun i => i ∈ ids t → i ∈ sharedMut pol t) t k (by decide) (fun _ hi _ => hi) (fresh_of_bound hk)
+  (instantiate_spec pol cs metaKeys (fun i => i ∈ ids t → i ∈ sharedMut pol t) t k (by decide)
+    (fun i hi _ => by rw [stripShared_eq] at hi; exact hi) (fresh_of_bound hk)).1
 
 /- Full statement (FALSE for the code as it is): ∀ i ∈ (instantiate pol cs metaKeys t k).writes, i ∉ ids t -/
 theorem C08_frame_instantiate_full_fails :
@@ -314,6 +343,14 @@ theorem C08_frame_instantiate_partial (t : T) (k : Nat) (hk : ∀ j ∈ ids t, j
   have := C08_frame_instantiate_exact t k hk i hi hmem
   rw [sharedMut_nil t hs] at this
   simp at this
+
+/-- regression F29: before fix 3b44d63 `strip_meta` handed an empty configuration back itself, and the objects of
+    class groups / the values of instantiation links were assigned into the caller's empty namespace 1 -/
+def polBeforeF29 : Policy := { pol with stripEmpty := false }
+
+theorem C08_regression_F29_before : 1 ∈ (instantiate polBeforeF29 cs metaKeys (T.ns 1 []) 100).writes := by decide
+
+theorem C08_regression_F29_now : ∀ i ∈ (instantiate pol cs metaKeys (T.ns 1 []) 100).writes, i ≠ 1 := by decide
 
 /-! ## declared defaults -/
 
@@ -355,8 +392,11 @@ theorem C08_fresh (t : T) (k : Nat) (hk : ∀ j ∈ ids t, j < k) :
     unfold stripMeta; split
     · exact Nat.le_refl _
     · exact (recreate_spec pol metaKeys (fun _ => True) t k (fun _ _ => trivial) (fun _ _ => trivial)).2
-  have e1 : r1 = mutT pol .inst c1.val c1.next := by
-    show instantiate pol cs metaKeys t k = _
+  have e1o : r1.objs = (mutT pol .inst c1.val c1.next).objs := by
+    show (instantiate pol cs metaKeys t k).objs = _
+    simp only [instantiate, instMut, hcs, copyIf, ↓reduceIte]; rfl
+  have e1n : r1.next = (mutT pol .inst c1.val c1.next).next := by
+    show (instantiate pol cs metaKeys t k).next = _
     simp only [instantiate, instMut, hcs, copyIf, ↓reduceIte]; rfl
   let c2 := stripMeta pol metaKeys t r1.next
   have hc2 : r1.next ≤ c2.next := by
@@ -364,13 +404,13 @@ theorem C08_fresh (t : T) (k : Nat) (hk : ∀ j ∈ ids t, j < k) :
     unfold stripMeta; split
     · exact Nat.le_refl _
     · exact (recreate_spec pol metaKeys (fun _ => True) t r1.next (fun _ _ => trivial) (fun _ _ => trivial)).2
-  have e2 : r2 = mutT pol .inst c2.val c2.next := by
-    show instantiate pol cs metaKeys t r1.next = _
+  have e2o : r2.objs = (mutT pol .inst c2.val c2.next).objs := by
+    show (instantiate pol cs metaKeys t r1.next).objs = _
     simp only [instantiate, instMut, hcs, copyIf, ↓reduceIte]; rfl
   have o1 := mutT_objs pol .inst c1.val c1.next
   have o2 := mutT_objs pol .inst c2.val c2.next
-  rw [← e1] at o1
-  rw [← e2] at o2
+  rw [← e1o, ← e1n] at o1
+  rw [← e2o] at o2
   -- the number of specs does not depend on the counter
   have hlen : specCount pol c1.val = specCount pol c2.val := by
     show specCount pol (stripMeta pol metaKeys t k).val = specCount pol (stripMeta pol metaKeys t r1.next).val
@@ -390,14 +430,175 @@ theorem C08_fresh (t : T) (k : Nat) (hk : ∀ j ∈ ids t, j < k) :
       omega
 
 /-- … and that number is the number of specs of the configuration itself (no meta keys involved) -/
-theorem C08_fresh_count (t : T) (k : Nat) (hne : isEmptyNode t = false) :
+theorem C08_fresh_count (t : T) (k : Nat) :
     (instantiate pol cs [] t k).objs.length = specCount pol t := by
   have hcs : cs.instantiate = true := by decide
   have h := mutT_objs pol .inst (recreate pol [] t k).val (recreate pol [] t k).next
-  simp only [instantiate, instMut, hcs, copyIf, ↓reduceIte, stripMeta, hne, Bool.false_eq_true]
+  simp only [instantiate, instMut, hcs, copyIf, ↓reduceIte, stripMeta, tie_strip_meta_empty, Bool.not_true, Bool.and_false, Bool.false_eq_true]
   rw [h.2.2.2]
   simp only [↓reduceIte]
   exact specCount_recreate pol t k
+
+/-! ## the remaining entry points: parse_args(args, namespace), validate(branch=), save, parse_string/path/env -/
+
+/-- the caller-side objects of parse_args: declared defaults, the optional namespace, the argv list -/
+def paArgs (ds : Kids) (ns : Option T) (argv : T) : List Nat :=
+  idsK ds ++ (match ns with | some n => ids n | none => []) ++ ids argv
+
+/-- … and what working copies share with them; the argv list shares nothing (`args = list(args)`) -/
+def paShared (ds : Kids) (ns : Option T) : List Nat :=
+  sharedMutK pol ds ++ (match ns with | some n => sharedMut pol n | none => [])
+
+/-- parse_args: the namespace handed in goes through merge_config (cloned), the argv list is copied before it is
+    stored on the parser and consumed — for EVERY argv value the caller's list is never written -/
+theorem C08_frame_parse_args_exact (ds : Kids) (ns : Option T) (argv : T) (k : Nat)
+    (hk : ∀ j ∈ paArgs ds ns argv, j < k) :
+    ∀ i ∈ (parseArgs pol cs ds ns argv k).writes, i ∈ paArgs ds ns argv → i ∈ paShared ds ns := by
+  refine (parseArgs_spec pol cs (fun i => i ∈ paArgs ds ns argv → i ∈ paShared ds ns)
+    (by decide) (by decide) (by decide) (by decide) (by decide) ds ns argv k ?_ ?_ (fresh_of_bound hk)).1
+  · intro i hi _
+    simp only [paShared, List.mem_append]; exact Or.inl hi
+  · intro n hn i hi _
+    subst hn
+    simp only [paShared, List.mem_append]; exact Or.inr hi
+
+theorem C08_frame_parse_args_partial (ds : Kids) (ns : Option T) (argv : T) (k : Nat)
+    (hk : ∀ j ∈ paArgs ds ns argv, j < k)
+    (hds : sharesWritableK ds = false) (hns : ∀ n, ns = some n → sharesWritable n = false) :
+    ∀ i ∈ (parseArgs pol cs ds ns argv k).writes, i ∉ paArgs ds ns argv := by
+  intro i hi hmem
+  have := C08_frame_parse_args_exact ds ns argv k hk i hi hmem
+  have hb : (match ns with | some n => sharedMut pol n | none => []) = [] := by
+    cases ns with
+    | none => rfl
+    | some n => exact sharedMut_nil n (hns n rfl)
+  simp only [paShared, sharedMutK_nil ds hds, hb, List.append_nil, List.not_mem_nil] at this
+
+/-- Full statement (FALSE for the code as it is): an OrderedDict inside the namespace handed in is rewritten -/
+theorem C08_frame_parse_args_full_fails :
+    2 ∈ (parseArgs pol cs [] (some odictWitness) (T.list 50 [.atom 1]) 100).writes := by decide
+
+/-- validate(cfg, branch=b): the clone, not the caller's branch object, is wrapped in the new namespace (seed C08-4B) -/
+theorem C08_frame_validate_branch_exact (branch : String) (t : T) (k : Nat) (hk : ∀ j ∈ ids t, j < k) :
+    ∀ i ∈ (validateBranch pol cs branch t k).writes, i ∈ ids t → i ∈ sharedMut pol t :=
+  (validateBranch_spec pol cs (fun i => i ∈ ids t → i ∈ sharedMut pol t) branch t k
+    (Or.inl ⟨by decide, fun _ hi _ => hi⟩) (fresh_of_bound hk)).1
+
+theorem C08_frame_validate_branch_partial (branch : String) (t : T) (k : Nat) (hk : ∀ j ∈ ids t, j < k)
+    (hs : sharesWritable t = false) :
+    ∀ i ∈ (validateBranch pol cs branch t k).writes, i ∉ ids t := by
+  intro i hi hmem
+  have := C08_frame_validate_branch_exact branch t k hk i hi hmem
+  rw [sharedMut_nil t hs] at this
+  simp at this
+
+/-- what wrapping the caller's own branch object would do (seed C08-4B): its list 2 is written -/
+theorem C08_validate_branch_without_clone :
+    2 ∈ (validateBranch pol { cs with validate := false } "g" (T.ns 1 [("n", T.list 2 [.atom 0])]) 100).writes := by decide
+
+/-- save, single file and multifile (clone, validate, `__path__` entries of the clone replaced, dump) -/
+theorem C08_frame_save_exact (multifile : Bool) (t : T) (k : Nat) (hk : ∀ j ∈ ids t, j < k) :
+    ∀ i ∈ (save pol cs metaKeys multifile t k).writes, i ∈ ids t → i ∈ sharedMut pol t :=
+  (save_spec pol cs metaKeys (fun i => i ∈ ids t → i ∈ sharedMut pol t) multifile t k (by decide) (by decide)
+    (fun _ hi _ => hi) (fresh_of_bound hk)).1
+
+theorem C08_frame_save_partial (multifile : Bool) (t : T) (k : Nat) (hk : ∀ j ∈ ids t, j < k)
+    (hs : sharesWritable t = false) :
+    ∀ i ∈ (save pol cs metaKeys multifile t k).writes, i ∉ ids t := by
+  intro i hi hmem
+  have := C08_frame_save_exact multifile t k hk i hi hmem
+  rw [sharedMut_nil t hs] at this
+  simp at this
+
+/-- parse_string / parse_path / parse_env: the loaded value is the library's own; only the declared defaults are
+    caller-visible, and they are written at most in what their copies share -/
+theorem C08_frame_parse_text_exact (ds : Kids) (shape : T) (k : Nat) (hk : ∀ j ∈ idsK ds, j < k) :
+    ∀ i ∈ (parseText pol cs ds shape k).writes, i ∈ idsK ds → i ∈ sharedMutK pol ds :=
+  (parseText_spec pol cs (fun i => i ∈ idsK ds → i ∈ sharedMutK pol ds) (by decide) (by decide) (by decide) (by decide)
+    ds shape k (fun _ hi _ => hi) (fresh_of_bound hk)).1
+
+theorem C08_frame_parse_text_partial (ds : Kids) (shape : T) (k : Nat) (hk : ∀ j ∈ idsK ds, j < k)
+    (hs : sharesWritableK ds = false) :
+    ∀ i ∈ (parseText pol cs ds shape k).writes, i ∉ idsK ds := by
+  intro i hi hmem
+  have := C08_frame_parse_text_exact ds shape k hk i hi hmem
+  rw [sharedMutK_nil ds hs] at this
+  simp at this
+
+/-! ## histories: any sequence of operations, results fed back as arguments
+
+`St` = declared defaults + the values the caller holds + fresh counter; `Op` = dump, validate(branch), merge_config,
+strip_unknown, instantiate_classes, parse_object(+base), parse_args(argv, namespace), parse_string/path/env, save,
+get_defaults, set_defaults/add_argument(default) — arguments are indices into what the caller holds, which grows by
+every configuration an operation hands out. -/
+
+/-- C08_history, exact form: in a history of ANY length, whatever any operation writes inside an object the caller held
+    at the start, or inside a declared default, is a container `recreate_branches` still shares (the open OrderedDict /
+    tuple-subclass finding) — whichever results of earlier operations are fed back as arguments, and also when the
+    caller's own objects are made declared defaults on the way (`setDefault`). -/
+theorem C08_history_exact (ops : List Op) (s : St) (hk : ∀ j ∈ s.ids, j < s.k) :
+    ∀ ws ∈ runHist pol cs metaKeys ops s, ∀ w ∈ ws, w ∈ s.ids → w ∈ s.shared pol := by
+  apply runHist_spec pol cs metaKeys (fun w => w ∈ s.ids → w ∈ s.shared pol) (by decide) tie_strip_meta_empty sitesOk ops s
+  refine ⟨?_, ?_, fresh_of_bound hk⟩
+  · intro t ht i hi _
+    simp only [St.shared, List.mem_append]
+    exact Or.inl (mem_sharedL pol s.env t ht i hi)
+  · intro i hi _
+    simp only [St.shared, List.mem_append]
+    exact Or.inr hi
+
+/-- nothing the caller holds, and no declared default, is in the finding class -/
+def histSafe (s : St) : Bool := s.env.all (fun t => !sharesWritable t) && !sharesWritableK s.defaults
+
+theorem sharedL_nil : ∀ (ts : List T), ts.all (fun t => !sharesWritable t) = true → sharedL pol ts = []
+  | [], _ => rfl
+  | t :: r, h => by
+    simp only [List.all_cons, Bool.and_eq_true, Bool.not_eq_true'] at h
+    simp only [sharedL, sharedMut_nil t h.1, sharedL_nil r h.2, List.append_nil]
+
+/-- C08_history: outside the finding class NO operation of any history writes any object the caller held at the start
+    or any declared default. -/
+theorem C08_history_partial (ops : List Op) (s : St) (hk : ∀ j ∈ s.ids, j < s.k) (hs : histSafe s = true) :
+    ∀ ws ∈ runHist pol cs metaKeys ops s, ∀ w ∈ ws, w ∉ s.ids := by
+  intro ws hws w hw hmem
+  have := C08_history_exact ops s hk ws hws w hw hmem
+  simp only [histSafe, Bool.and_eq_true, Bool.not_eq_true'] at hs
+  simp only [St.shared, sharedL_nil s.env hs.1, sharedMutK_nil s.defaults hs.2, List.append_nil, List.not_mem_nil] at this
+
+/-- … and the invariant survives the history: it can be continued by any further history (the state at the end again
+    satisfies what `C08_history_exact` needs of the state at the start, for the same protected objects) -/
+theorem C08_history_continues (ops more : List Op) (s : St) (hk : ∀ j ∈ s.ids, j < s.k) :
+    ∀ ws ∈ runHist pol cs metaKeys more (endState pol cs metaKeys ops s), ∀ w ∈ ws, w ∈ s.ids → w ∈ s.shared pol := by
+  apply runHist_spec pol cs metaKeys (fun w => w ∈ s.ids → w ∈ s.shared pol) (by decide) tie_strip_meta_empty sitesOk more
+  apply endState_inv pol cs metaKeys _ (by decide) tie_strip_meta_empty sitesOk ops s
+  refine ⟨?_, ?_, fresh_of_bound hk⟩
+  · intro t ht i hi _
+    simp only [St.shared, List.mem_append]
+    exact Or.inl (mem_sharedL pol s.env t ht i hi)
+  · intro i hi _
+    simp only [St.shared, List.mem_append]
+    exact Or.inr hi
+
+/- Full statement (FALSE for the code as it is): the same without `histSafe`. -/
+theorem C08_history_full_fails :
+    ¬ (∀ (ops : List Op) (s : St), (∀ j ∈ s.ids, j < s.k) → ∀ ws ∈ runHist pol cs metaKeys ops s, ∀ w ∈ ws, w ∉ s.ids) := by
+  intro h
+  exact absurd (h [.dump 0] ⟨[], [odictWitness], 100⟩ (by decide) _ (List.mem_cons_self) 2 (by decide)) (by decide)
+
+theorem lookupK_insertK (key : String) (v : T) : ∀ (to : Kids), lookupK key (insertK key v to) = some v
+  | [] => by simp [insertK, lookupK]
+  | (k', v') :: r => by
+    by_cases hk : k' = key
+    · simp [insertK, lookupK, hk]
+    · simp [insertK, lookupK, hk, lookupK_insertK key v r]
+
+/-- aliasing in the other direction, characterised: after `set_defaults(dest=obj)` / `add_argument(default=obj)` the
+    declared default IS the caller's object (same identities) — a later change the CALLER makes to it is seen by the
+    parser (argparse semantics); the library itself never writes it (`C08_history_*` with the object among `s.env`). -/
+theorem setDefault_aliases (s : St) (dest : String) (a : Nat) :
+    lookupK dest ((Op.next pol cs metaKeys s (.setDefault dest a)).defaults) = some (s.get a) := by
+  simp only [Op.next, Op.defaultsAfter]
+  exact lookupK_insertK dest (s.get a) s.defaults
 
 /-! ## brackets -/
 
@@ -479,5 +680,24 @@ example : specCount pol sample = 2 := by decide
 example : sharesWritable odictWitness = true := by decide
 example : sharedMut pol odictWitness = [2] := by decide
 example : (rows.filter (fun r => r.2.2 == .fin)).length ≥ 10 := by decide
+
+/-- a history with real writes: the caller holds a config, an argv list and a nested list; the list is made a declared
+    default, then parse_args with the config as namespace, dump / instantiate / merge of the results, multifile save,
+    get_defaults, strip_unknown, parse_string, validate(branch), parse_object with a base -/
+def histStart : St :=
+  { defaults := [("xs", T.list 20 [T.list 21 [.atom 0]])],
+    env := [sample, T.list 40 [.atom 1, .atom 2], T.list 50 [T.tuple 51 [.atom 7, T.list 52 [.atom 8]]]],
+    k := 100 }
+def histOps : List Op :=
+  [.setDefault "ys" 2, .parseArgs 1 (some 0), .dump 3, .instantiate 3, .merge 3 0, .save true 5, .getDefaults,
+   .stripUnknown ["a"] 6, .parseText (T.dict 0 [("a", T.list 0 [.atom 1])]), .validateBranch "g" 0, .parseObject 0 (some 3)]
+
+example : histSafe histStart = true := by decide
+example : (∀ j ∈ histStart.ids, j < histStart.k) := by decide
+example : ((runHist pol cs metaKeys histOps histStart).map List.length).foldl (· + ·) 0 > 100 := by decide
+example : (endState pol cs metaKeys histOps histStart).env.length = 10 := by decide
+example : (parseArgs pol cs histStart.defaults (some sample) (T.list 40 [.atom 1, .atom 2]) 100).writes.length > 20 := by decide
+example : (save pol cs metaKeys true sample 100).writes.length > (dump pol cs metaKeys sample 100).writes.length := by decide
+example : (validateBranch pol cs "g" sample 100).writes.length = (validate pol cs sample 100).writes.length + 1 := by decide
 
 end Jap.Props.C08
